@@ -100,8 +100,8 @@ def check(run, F, tier):
     local_entries = [(f["name"], f, "") for f in sendh.values()] + [(n, ms[n], "") for n in local_names if n in ms]
     feed = F.fns.get("mqtt::connection::packet_builder::PacketBuilder::feed")
 
-    r1 = run.rule("C05-R1", "no undischarged panic site reachable from recv()", floor=200)
-    r1l = run.rule("C05-R1L", "no undischarged panic site reachable from the local API", floor=41)
+    r1 = run.rule("C05-R1", "no undischarged panic site reachable from recv()", floor=140)
+    r1l = run.rule("C05-R1L", "no undischarged panic site reachable from the local API", floor=30)
     mech = aud = 0
     used = set()
 
